@@ -51,9 +51,11 @@ def rename_node(spec, path, pi):
     if n["repetition"]:
         rep = n["repetition"]
         rep["count"] = rn(rep["count"])
+        bound = {rep["sequence"].get("num_terms_symbol"), rep["sequence"].get("iterator_symbol")} - {None}
+        sig_free = {o: t for o, t in sig.items() if o not in bound}      # bound names of the formula are not names of the node
         for k, v in list(rep["sequence"].items()):
             if isinstance(v, tuple):
-                rep["sequence"][k] = rn(v)
+                rep["sequence"][k] = E.subst(v, sig_free)
     # links of ancestors that target this node's parameters
     node = spec
     for depth in range(len(path)):
@@ -113,6 +115,51 @@ def oracle(case, res, extra):
             if clash:
                 res.nontrivial.append((case.seed, "rename-clash"))
                 res.stats["rename_with_clash"] += 1
+    # ---- (1b) alpha-renaming of a sequence's bound name (closed-form placeholder / custom iterator) onto a name of the shared
+    # pool that is used elsewhere in the hierarchy: bound names do not matter, so every compiled value must stay the same
+    bcands = [(p, n) for p, n in nodes(spec) if n["repetition"] and n["repetition"]["sequence"]["type"] in ("closed_form", "custom")]
+    if bcands:
+        bpath, bn = rng.choice(bcands)
+        sq = bn["repetition"]["sequence"]
+        key = "num_terms_symbol" if sq["type"] == "closed_form" else "iterator_symbol"
+        old = sq[key]
+        flds = [k for k in ("sum", "prod", "term_expression") if isinstance(sq.get(k), tuple)]
+        avoid = set(declared(bn)) | {old}
+        for k in flds:
+            avoid |= E.fv(sq[k])
+        pool = [x for x in G.POOL + ["S", "W", "z"] if x not in avoid]
+        if pool:
+            new = rng.choice(pool)
+            spec3 = copy.deepcopy(spec)
+            n3 = spec3
+            for p_ in bpath:
+                n3 = next(c for c in n3["children"] if c["name"] == p_)
+            sq3 = n3["repetition"]["sequence"]
+            sq3[key] = new
+            for k in flds:
+                sq3[k] = E.subst(sq3[k], {old: E.sym(new)})
+            q3 = G.to_qref(spec3, G.Rendered())
+            st3, r3 = try_compile(q3)
+            res.stats["bound_name_renamings"] += 1
+            if st3 != "ok":
+                # the one legitimate refusal: an iterator that is spelled like a symbol being substituted (F8-style guard)
+                if not (sq["type"] == "custom" and "iterator symbol" in str(r3)):
+                    res.violation("failing-input", f"renaming the bound name {old} of the sequence of {'.'.join(bpath) or 'root'} to {new} turns a compilable routine into {st3}",
+                                  {"qref": case.qref, "renamed_qref": q3, "bound": {old: new}}, str(r3)[:300], "ok")
+                    return
+                res.stats["bound_name_renaming_refused_iterator_guard"] += 1
+            else:
+                diffs = compare.trees_equal_real(cr, r3.routine, rng, None, constraints=False)
+                if diffs:
+                    res.violation("failing-input", f"renaming the bound name {old} of the sequence of {'.'.join(bpath) or 'root'} to {new} changes a compiled value: {diffs[0][:2]}",
+                                  {"qref": case.qref, "renamed_qref": q3, "bound": {old: new}}, [str(x)[:200] for x in diffs[0]], "equal: bound names do not matter")
+                    return
+                others = set(refsem.top_level_inputs(spec))
+                for p2, n2 in nodes(spec):
+                    others |= set(declared(n2))
+                if new in others:
+                    res.nontrivial.append((case.seed, "bound-name-clash"))
+                    res.stats["bound_name_renaming_with_clash"] += 1
     # ---- (2) evaluate: values mentioning other keys
     names = list(cr.input_params)
     if len(names) >= 2:
@@ -186,6 +233,10 @@ def run(ctx, widen=False):
                 "hierarchy, or an assigned value mentions another assigned key; distinct (seed, kind)")
     base = ctx.seed * 1000003 + 4500000
     pipeline.run_stream(ctx, __name__, range(base, base + n))
+    # second family: repetition wrappers with closed-form / custom sequences below the root, parameters handed down through links
+    pipeline.run_stream(ctx, __name__, range(base + 90000, base + 90000 + n // 2),
+                        extra={"p_rep": 0.6, "rep_kinds": ["closed_form", "closed_form", "custom", "arithmetic"], "p_placeholder_clash": 0.5,
+                               "p_deep_link": 0.5, "symbolic_rep": 0.9})
     corpus(ctx)
 
 
